@@ -180,6 +180,7 @@ PROPS["C03"] = {
         "Lace.C03.ref_run_fuel_mono",
         "Lace.C03.term_loop_fuel_mono",
         "Lace.C03.loop_fuel_split",
+        "Lace.C03.ref_run_fuel_split",
     ],
     "also": ["C03T"],
     "needs_bin": True,
